@@ -143,8 +143,12 @@ pub enum ReaderKind {
     ByteFillLE,
     Channel,
     FrameIter,
+    /// per-channel reader consuming each returned buffer in two pieces (ceil(n/2), then the rest)
+    ChannelPart,
+    /// `FlacSampleReader::read` into a buffer larger than any stream of the explored spaces' small files (4099 samples)
+    SampleReadBig,
 }
-pub const READERS: [ReaderKind; 8] = [ReaderKind::SampleFill, ReaderKind::SampleRead, ReaderKind::SampleIter, ReaderKind::ByteLE, ReaderKind::ByteBE, ReaderKind::ByteFillLE, ReaderKind::Channel, ReaderKind::FrameIter];
+pub const READERS: [ReaderKind; 10] = [ReaderKind::SampleFill, ReaderKind::SampleRead, ReaderKind::SampleIter, ReaderKind::ByteLE, ReaderKind::ByteBE, ReaderKind::ByteFillLE, ReaderKind::Channel, ReaderKind::FrameIter, ReaderKind::ChannelPart, ReaderKind::SampleReadBig];
 
 pub fn bytes_per_sample(bps: u32) -> usize {
     bps.div_ceil(8) as usize
@@ -212,6 +216,12 @@ pub fn encode(w: WriterKind, opt: &Opt, sig: &Sig, pcm: &[i32]) -> Result<Vec<u8
 /// Encode with the input split across write calls at `cuts` (indices in the writer's native unit:
 /// bytes for byte writers, samples for the sample writer, PCM frames for the channel writer).
 pub fn encode_calls(w: WriterKind, opt: &Opt, sig: &Sig, pcm: &[i32], cuts: Option<&[usize]>) -> Result<Vec<u8>, String> {
+    encode_hist(w, opt, sig, pcm, cuts, false, false)
+}
+
+/// `encode_calls` with two more history dimensions: `flush` = the byte writers' `io::Write::flush` is called after
+/// every write call (the other writers have no flush); `drop_it` = the writer is dropped instead of finalized.
+pub fn encode_hist(w: WriterKind, opt: &Opt, sig: &Sig, pcm: &[i32], cuts: Option<&[usize]>, flush: bool, drop_it: bool) -> Result<Vec<u8>, String> {
     let options = opt.to_options()?;
     let r = guarded(|| -> Result<Vec<u8>, String> {
         let mut out = Cursor::new(Vec::new());
@@ -235,7 +245,7 @@ pub fn encode_calls(w: WriterKind, opt: &Opt, sig: &Sig, pcm: &[i32], cuts: Opti
                 for (a, b) in pieces(pcm.len()) {
                     wr.write(&pcm[a..b]).map_err(e)?;
                 }
-                wr.finalize().map_err(e)?;
+                if drop_it { drop(wr) } else { wr.finalize().map_err(e)? }
             }
             WriterKind::ByteLE | WriterKind::ByteBE => {
                 let big = w == WriterKind::ByteBE;
@@ -246,14 +256,20 @@ pub fn encode_calls(w: WriterKind, opt: &Opt, sig: &Sig, pcm: &[i32], cuts: Opti
                     let mut wr = FlacByteWriter::endian(&mut out, BigEndian, options, sig.rate, sig.bps, sig.ch, total).map_err(e)?;
                     for (a, b) in pieces(bytes.len()) {
                         wr.write_all(&bytes[a..b]).map_err(ioe)?;
+                        if flush {
+                            wr.flush().map_err(ioe)?;
+                        }
                     }
-                    wr.finalize().map_err(e)?;
+                    if drop_it { drop(wr) } else { wr.finalize().map_err(e)? }
                 } else {
                     let mut wr = FlacByteWriter::endian(&mut out, LittleEndian, options, sig.rate, sig.bps, sig.ch, total).map_err(e)?;
                     for (a, b) in pieces(bytes.len()) {
                         wr.write_all(&bytes[a..b]).map_err(ioe)?;
+                        if flush {
+                            wr.flush().map_err(ioe)?;
+                        }
                     }
-                    wr.finalize().map_err(e)?;
+                    if drop_it { drop(wr) } else { wr.finalize().map_err(e)? }
                 }
             }
             WriterKind::Channel => {
@@ -264,7 +280,7 @@ pub fn encode_calls(w: WriterKind, opt: &Opt, sig: &Sig, pcm: &[i32], cuts: Opti
                     let part: Vec<&[i32]> = chans.iter().map(|c| &c[a..b]).collect();
                     wr.write(&part).map_err(e)?;
                 }
-                wr.finalize().map_err(e)?;
+                if drop_it { drop(wr) } else { wr.finalize().map_err(e)? }
             }
         }
         Ok(out.into_inner())
@@ -305,10 +321,10 @@ pub fn decode(r: ReaderKind, bytes: &[u8]) -> Result<Decoded, (String, Vec<i32>)
                 }
                 Ok(Decoded { pcm: vec![], ch, rate, bps })
             }
-            ReaderKind::SampleRead => {
+            ReaderKind::SampleRead | ReaderKind::SampleReadBig => {
                 let mut rd = FlacSampleReader::new(src).map_err(e)?;
                 let (ch, rate, bps) = (rd.channel_count(), rd.sample_rate(), rd.bits_per_sample());
-                let mut buf = [0i32; 7];
+                let mut buf = vec![0i32; if r == ReaderKind::SampleRead { 7 } else { 4099 }];
                 loop {
                     let n = rd.read(&mut buf).map_err(e)?;
                     if n == 0 {
@@ -373,7 +389,7 @@ pub fn decode(r: ReaderKind, bytes: &[u8]) -> Result<Decoded, (String, Vec<i32>)
                 res?;
                 Ok(Decoded { pcm: vec![], ch, rate, bps })
             }
-            ReaderKind::Channel => {
+            ReaderKind::Channel | ReaderKind::ChannelPart => {
                 let mut rd = FlacChannelReader::new(src).map_err(e)?;
                 let (ch, rate, bps) = (rd.channel_count(), rd.sample_rate(), rd.bits_per_sample());
                 loop {
@@ -382,6 +398,7 @@ pub fn decode(r: ReaderKind, bytes: &[u8]) -> Result<Decoded, (String, Vec<i32>)
                     if n == 0 {
                         break;
                     }
+                    let n = if r == ReaderKind::ChannelPart { n.div_ceil(2) } else { n };
                     for i in 0..n {
                         for c in &b {
                             got.push(c[i]);
